@@ -18,7 +18,7 @@ pub fn alphabets() -> Vec<Alphabet> {
         Alphabet { id: "A-dir", symbols: vec!["pragma", "#pragma", "OPENQASM", "#dim", " ", "\n", "3", ".", "0", ";", "x", "$", "@", "#"] },
         Alphabet { id: "A-unit", symbols: vec!["1", "ns", "µs", "im", "dt", "s", "m", "u", "µ", ".", "e", "_", " ", "μ"] },
         // line structure: carriage returns, tabs, form feeds and the line-oriented lexemes
-        Alphabet { id: "A-line", symbols: vec!["\r", "\n", "\t", " ", "pragma", "@a", "//", "/*", "*/", "x", ";", "é", "\u{b}", "\u{c}"] },
+        Alphabet { id: "A-line", symbols: vec!["\r", "\n", "\t", " ", "pragma", "@a", "//", "/*", "*/", "x", ";", "Å", "\u{b}", "\u{c}"] },
         // upper-case spellings and literal suffixes
         Alphabet { id: "A-case", symbols: vec!["0", "1", "B", "X", "O", "b", "x", "E", "_", "F", "f", "g", ".", "im"] },
         // unusual Unicode: byte order mark, no-break space, zero-width space, line separator,
